@@ -1,4 +1,4 @@
-\* deep (thorough): histories of 5 successive calls
+\* deep (thorough): histories of 4 successive calls
 CONSTANTS
   Designs <- DesignsDeep
   Growths <- G2x
@@ -8,7 +8,9 @@ CONSTANTS
   FromInput <- FromBoth
   ExplicitTargets = FALSE
   Refusals = FALSE
-  MaxLevel = 6
+  ZeroHeightRefused = FALSE
+  AlignTarget = FALSE
+  MaxLevel = 5
 INIT Init
 NEXT Next
 CONSTRAINT Bound
